@@ -66,9 +66,30 @@ fn needs_quote(id: &str) -> bool {
     !is_valid_as_id(id) || is_keyword(id)
 }
 
+/// Escape text for a Candid string literal. `str::escape_debug` renders NUL as `\0`,
+/// which the Candid lexer does not know (and reads as a `\xx` byte escape when two hex
+/// digits follow), so NUL is written as a code point escape instead.
+pub(crate) fn escape_text(s: &str, escape_single_quote: bool) -> String {
+    s.split('\0')
+        .map(|piece| {
+            if escape_single_quote {
+                piece.escape_debug().to_string()
+            } else {
+                let quoted = format!("{piece:?}");
+                let inner = quoted
+                    .strip_prefix('"')
+                    .and_then(|q| q.strip_suffix('"'))
+                    .unwrap_or(&quoted);
+                inner.to_string()
+            }
+        })
+        .collect::<Vec<_>>()
+        .join("\\u{0}")
+}
+
 fn ident_string(id: &str) -> String {
     if needs_quote(id) {
-        format!("\"{}\"", id.escape_debug())
+        format!("\"{}\"", escape_text(id, true))
     } else {
         id.to_string()
     }
@@ -495,7 +516,7 @@ pub mod value {
                 Int64(n) => write!(f, "{} : int64", pp_num_str(&n.to_string())),
                 Float32(_) => write!(f, "{} : float32", number_to_string(self)),
                 Float64(_) => write!(f, "{} : float64", number_to_string(self)),
-                Text(s) => write!(f, "{s:?}"),
+                Text(s) => write!(f, "\"{}\"", super::escape_text(s, false)),
                 None => write!(f, "null"),
                 Reserved => write!(f, "null : reserved"),
                 Principal(id) => write!(f, "principal \"{id}\""),
@@ -613,7 +634,7 @@ pub mod value {
             return RcDoc::as_string(format!("{v:?}"));
         }
         match v {
-            Text(ref s) => RcDoc::as_string(format!("\"{}\"", s.escape_debug())),
+            Text(ref s) => RcDoc::as_string(format!("\"{}\"", super::escape_text(s, true))),
             Opt(v) if has_type_annotation(v) => {
                 kwd("opt").append(enclose("(", pp_value(depth - 1, v), ")"))
             }
